@@ -238,6 +238,10 @@ fn(WS + ".app_send", params={"message": "none | msg(headers:short)"}, task="app"
        ("C11.close403", "implies(not old(self.closed) and message is not None and message['type'] == 'websocket.close' and old(self.state) == ASGIWebsocketState.HANDSHAKE, "
         "self.state == ASGIWebsocketState.HTTPCLOSED and n_emitted('sent') == 2 and isinstance(emitted('sent')[0], Response) and emitted('sent')[0].status_code == 403 and isinstance(emitted('sent')[1], EndBody))", "C11"),
        # C12: a call that returns normally was valid for its state
+       # C12 "a non-str ... text frame raises an error": a websocket.send without bytes that
+       # returns normally carried a str
+       ("C12.ws.text-is-str", "implies(not old(self.closed) and message is not None and message['type'] == 'websocket.send' "
+        "and not (has_key(message, 'bytes') and not tagis(message.get('bytes'), 'none')), has_key(message, 'text') and tagis(message['text'], 'str'))", "C12,C10"),
        ("C12.ws.table.send", "implies(not old(self.closed) and message is not None and message['type'] == 'websocket.send', old(self.state) == ASGIWebsocketState.CONNECTED)", "C12"),
        ("C12.ws.table.accept", "implies(not old(self.closed) and message is not None and message['type'] == 'websocket.accept', old(self.state) == ASGIWebsocketState.HANDSHAKE)", "C12"),
        ("C12.ws.table.response-start", "implies(not old(self.closed) and message is not None and message['type'] == 'websocket.http.response.start', old(self.state) == ASGIWebsocketState.HANDSHAKE)", "C12"),
